@@ -5,6 +5,7 @@ import (
 	"go/constant"
 	"go/token"
 	"go/types"
+	"os"
 	"strings"
 
 	"golang.org/x/tools/go/ssa"
@@ -107,6 +108,42 @@ func (x *Ctx) trips(fn *ssa.Function, lp digitLoop, st *types.Struct) []trip {
 				cond := iff.Cond
 				if u, ok := cond.(*ssa.UnOp); ok && u.Op == token.NOT {
 					cond, truth = u.X, !truth
+				}
+				// `case a && b:` evaluates the conjunction into a phi: on this path it is the value that came in
+				// through the predecessor actually taken
+				infeasible := false
+				for hops := 0; hops < 4; hops++ {
+					ph, isPhi := cond.(*ssa.Phi)
+					if !isPhi {
+						break
+					}
+					resolved := false
+					for j := len(t.blocks) - 1; j >= 1; j-- {
+						if t.blocks[j] != ph.Block() {
+							continue
+						}
+						for pi, pr := range ph.Block().Preds {
+							if pr == t.blocks[j-1] {
+								cond = ph.Edges[pi]
+								resolved = true
+							}
+						}
+						break
+					}
+					if !resolved {
+						break
+					}
+					if u, ok := cond.(*ssa.UnOp); ok && u.Op == token.NOT {
+						cond, truth = u.X, !truth
+					}
+				}
+				if c, ok := cond.(*ssa.Const); ok && c.Value != nil && c.Value.Kind() == constant.Bool {
+					if constant.BoolVal(c.Value) != truth {
+						infeasible = true
+					}
+				}
+				if infeasible {
+					continue
 				}
 				if be, ok := cond.(*ssa.BinOp); ok {
 					if k, isK := constBig(be.Y); isK && isByte(be.X) && k.IsInt64() {
@@ -233,9 +270,41 @@ func (x *Ctx) decimalPointAccounting(r *core.Result, g, h *core.RuleStat) {
 	recv, data := fn.Params[0], fn.Params[1]
 	st := structOfType(recv.Type())
 	loops := byteLoops(fn, data)
-	if st == nil || len(loops) < 2 {
+	// the exponent scan: the second loop over the literal, or — when it has been moved into a private helper
+	// (scanExponent(data, p)) — the call of a helper that is handed the literal and loops over it
+	var expCall *ssa.Call
+	if len(loops) == 1 {
+		for _, b := range fn.Blocks {
+			for _, ins := range b.Instrs {
+				c, ok := ins.(*ssa.Call)
+				if !ok || !loops[0].head.Dominates(b) || canReach(b, loops[0].head) {
+					continue
+				}
+				hf := c.Call.StaticCallee()
+				if hf == nil || !x.isPrivateHelper(hf) || hf.Blocks == nil || len(hf.Params) != len(c.Call.Args) {
+					continue
+				}
+				for i, a := range c.Call.Args {
+					if a == ssa.Value(data) && len(byteLoops(hf, hf.Params[i])) > 0 && expCall == nil {
+						expCall = c
+					}
+				}
+			}
+		}
+	}
+	if st == nil || len(loops) < 1 || (len(loops) < 2 && expCall == nil) {
 		r.Undecided(g, "decimal.set:loops", w.Pos(fn.Pos()), fmt.Sprintf("expected the digit loop and the exponent loop over the literal, found %d loops", len(loops)))
 		return
+	}
+	// afterExponent: the instruction comes after the exponent scan has started
+	afterExponent := func(ins ssa.Instruction) bool {
+		if expCall != nil {
+			if ins.Block() == expCall.Block() {
+				return instrIndex(ins) > instrIndex(expCall)
+			}
+			return expCall.Block().Dominates(ins.Block())
+		}
+		return loops[1].head.Dominates(ins.Block())
 	}
 	digits := lts.Range('0', '9')
 	// ---- R04g
@@ -269,7 +338,6 @@ func (x *Ctx) decimalPointAccounting(r *core.Result, g, h *core.RuleStat) {
 			}
 			return false
 		}
-		expHead := loops[1].head
 		// stores `recv.F = V` before the exponent loop where V is neither a constant nor F's own value adjusted
 		type cstore struct {
 			sto    *ssa.Store
@@ -280,13 +348,10 @@ func (x *Ctx) decimalPointAccounting(r *core.Result, g, h *core.RuleStat) {
 		}
 		var cands []cstore
 		for _, b := range fn.Blocks {
-			if expHead.Dominates(b) {
-				continue // the exponent's own adjustment of dp comes later
-			}
 			for _, ins := range b.Instrs {
 				sto, ok := ins.(*ssa.Store)
-				if !ok {
-					continue
+				if !ok || afterExponent(sto) {
+					continue // the exponent's own adjustment of dp comes later
 				}
 				fa, ok := sto.Addr.(*ssa.FieldAddr)
 				if !ok || unspill(fa.X) != ssa.Value(recv) || !isIntKind(sto.Val.Type()) {
@@ -345,6 +410,9 @@ func (x *Ctx) decimalPointAccounting(r *core.Result, g, h *core.RuleStat) {
 		okG := true
 		nTrips := 0
 		for _, t := range x.trips(fn, loops[0], st) {
+			if os.Getenv("VERIF_TRACE_FP") != "" {
+				fmt.Println("ALLTRIP", t.bytes, len(t.blocks), t.ints)
+			}
 			if t.bytes.Empty() || t.bytes.And(digits) != t.bytes {
 				continue // not a digit trip
 			}
@@ -370,6 +438,9 @@ func (x *Ctx) decimalPointAccounting(r *core.Result, g, h *core.RuleStat) {
 							setsFlag = true
 						}
 					}
+				}
+				if os.Getenv("VERIF_TRACE_FP") != "" {
+					fmt.Println("TRIP", t.bytes, "stored", stored, "setsFlag", setsFlag, t.ints)
 				}
 				if !stored {
 					hasZero, hasNonZero := t.bytes.Has('0'), !t.bytes.And(lts.Range('1', '9')).Empty()
